@@ -127,7 +127,9 @@ int main(int argc, char** argv) {
             // ".5", "5.", "1e3": finite decimal notations the documentation neither names nor excludes
           }
           else if (tn == "int64" && haveLL && allIn(s.substr(1), "0123456789")) T.lenient("int64-read-with-stoull-wraps", tn + " " + s);
-          else if (digitPrefix) T.lenient("number-prefix-parse", tn + " " + s);
+          // prefix semantics only: something FOLLOWS the number that was read.  A pure (signed) digit string that the
+          // model rejects is out of range - accepting it means the value was narrowed or wrapped: a plain mismatch
+          else if (digitPrefix && !(haveLL && allIn(s.substr(1), "0123456789"))) T.lenient("number-prefix-parse", tn + " " + s);
           else T.mismatch(tn + ": an invalid value is accepted", line);
         }
       }
